@@ -28,8 +28,8 @@ Overhead == atoi(IOEnv.OVERHEAD)     \* ms allowed on top of the planned slice
 QuitLimit == 1000
 EofLimit == 2000
 
-VARIABLES l, bad, cnt, s, memo
-vars == <<l, bad, cnt, s, memo>>
+VARIABLES l, bad, cnt, s, memo, hs
+vars == <<l, bad, cnt, s, memo, hs>>
 D(x) == ToString(x)
 Has(e, f) == f \in DOMAIN e
 
@@ -208,7 +208,56 @@ PosDumpFails(e) ==
      \cup (IF \E c \in counts \cup {e.table[j][2] : j \in 1..Len(e.table)} : c # 0 /\ recCounts(c) # histCounts(c)
            THEN {<<"C10", "record-in-loop", D(<<s.cmd, [j \in 1..Len(e.table) |-> e.table[j][2]]>>)>>} ELSE {})
 
+(***************************************************************************)
+(* hk: events written by the INSTRUMENTED binary at the linearization      *)
+(* points of Walleye.tla's actions, in the order of one global sequence    *)
+(* number taken under the sink's lock:                                     *)
+(*   go_start  = GoAccept   (slice planned, root board)                    *)
+(*   srch_send = SrchImprove / SrchStop's fallback (stamped BEFORE tx.send)*)
+(*   io_recv   = PollRecv   (stamped AFTER try_recv returned a board)      *)
+(*   io_exit   = PollExit   (with the clock's answer at that moment)       *)
+(* hs mirrors the model's chan / best / root for the go being served.      *)
+(***************************************************************************)
+NoHs == [active |-> FALSE, hasPrev |-> FALSE]
+SameBoard(a, b) == a.r = b.r /\ a.stm = b.stm /\ a.cr = b.cr /\ a.ep = b.ep /\ a.d = b.d
+HkFails(e) ==
+  CASE e.h = "go_start" -> {}
+    [] e.h = "srch_send" ->
+         \* a send after the polling loop was left (or by the previous go's thread, whose channel is gone) is the benign
+         \* race named SrchSendAfterClose in the design: it reaches nobody
+         IF ~hs.active THEN {}
+         ELSE LET root == Decode(hs.root)  m == <<e.board.d[1], e.board.d[2], Kind(e.board.d[3])>>
+                  okFor(rt) == WellFormed(rt) /\ m \in Legal(rt) /\ SameAs(Apply(rt, m), e.board) IN
+              IF ~WellFormed(root) \/ okFor(root) THEN {}
+              ELSE IF hs.hasPrev /\ okFor(Decode(hs.prev)) THEN {}
+              ELSE IF m \notin Legal(root) THEN {<<"C03", "search-sent-illegal-move", D(<<ToFen(root, 0, 1), m>>)>>}
+              ELSE {<<"C03", "search-sent-wrong-board", D(<<ToFen(root, 0, 1), m>>)>>}
+    [] e.h = "io_recv" ->
+         IF ~hs.active THEN {<<"C03", "recv-without-go", D(e.seq)>>}
+         ELSE IF hs.nrecv >= Len(hs.sent) THEN {<<"C03", "received-before-sent", D(e.seq)>>}
+         ELSE IF ~SameBoard(hs.sent[hs.nrecv + 1], e.board) THEN {<<"C03", "channel-not-fifo", D(e.seq)>>}
+         ELSE {}
+    [] e.h = "io_exit" ->
+         IF ~hs.active THEN {<<"C03", "exit-without-go", D(e.seq)>>}
+         ELSE (IF ~e.expired THEN {<<"C09", "loop-left-before-deadline", D(e.seq)>>} ELSE {})
+              \cup (IF hs.nrecv = 0 THEN {<<"C03", "loop-left-without-board", D(e.seq)>>}
+                    ELSE IF ~SameBoard(hs.sent[hs.nrecv], e.board) THEN {<<"C03", "answer-is-not-last-received", D(e.seq)>>} ELSE {})
+    [] OTHER -> {}
+HkStep(e) ==
+  CASE e.h = "go_start" -> [active |-> TRUE, root |-> e.board, sent |-> <<>>, nrecv |-> 0, hasPrev |-> hs.hasPrev,
+                            prev |-> IF hs.hasPrev THEN hs.prev ELSE e.board]
+    [] e.h = "srch_send" ->
+         \* only sends of the current search enter the model's channel
+         IF hs.active /\ WellFormed(Decode(hs.root))
+            /\ LET m == <<e.board.d[1], e.board.d[2], Kind(e.board.d[3])>> IN m \in Legal(Decode(hs.root)) /\ SameAs(Apply(Decode(hs.root), m), e.board)
+         THEN [hs EXCEPT !.sent = Append(@, e.board)] ELSE hs
+    [] e.h = "io_recv" -> IF hs.active THEN [hs EXCEPT !.nrecv = @ + 1] ELSE hs
+    \* after the loop is left the search thread may still send into the closed channel: those sends belong to no go
+    [] e.h = "io_exit" -> IF hs.active THEN [active |-> FALSE, hasPrev |-> TRUE, prev |-> hs.root] ELSE hs
+    [] OTHER -> hs
+
 Fails(e) ==
+  IF e.ev = "hk" THEN HkFails(e) ELSE
   IF s.skip /\ e.ev \in {"out", "timeout", "closed", "posdump"} THEN {} ELSE
   CASE e.ev = "in" -> InFails(e)
     [] e.ev = "out" -> OutFails(e)
@@ -230,7 +279,7 @@ Step(e) ==
     [] OTHER -> s
 
 ZeroCnt == [resets |-> 0, ins |-> 0, gos |-> 0, bestmoves |-> 0, infos |-> 0, readyoks |-> 0, exits |-> 0, slices |-> 0,
-            posdumps |-> 0, terminal_gos |-> 0, probes |-> 0]
+            posdumps |-> 0, terminal_gos |-> 0, probes |-> 0, hook_events |-> 0, hook_recvs |-> 0]
 Count(c, e) ==
   CASE e.ev = "reset" -> [c EXCEPT !.resets = @ + 1]
     [] e.ev = "in" -> [c EXCEPT !.ins = @ + 1, !.gos = @ + (IF Has(e, "go") THEN 1 ELSE 0),
@@ -241,15 +290,17 @@ Count(c, e) ==
     [] e.ev = "exit" -> [c EXCEPT !.exits = @ + 1]
     [] e.ev = "slice" -> [c EXCEPT !.slices = @ + 1]
     [] e.ev = "posdump" -> [c EXCEPT !.posdumps = @ + 1]
+    [] e.ev = "hk" -> [c EXCEPT !.hook_events = @ + 1, !.hook_recvs = @ + (IF e.h = "io_recv" THEN 1 ELSE 0)]
     [] OTHER -> c
 
-Init == l = 1 /\ bad = {} /\ cnt = ZeroCnt /\ s = Fresh /\ memo = <<>>
+Init == l = 1 /\ bad = {} /\ cnt = ZeroCnt /\ s = Fresh /\ memo = <<>> /\ hs = NoHs
 Next == /\ l <= Len(Rec)
         /\ l' = l + 1
         /\ bad' = bad \cup {<<f[1], l, f[2], f[3]>> : f \in Fails(Rec[l])}
         /\ cnt' = Count(cnt, Rec[l])
         /\ memo' = MemoStep(Rec[l])
         /\ s' = Step(Rec[l])
+        /\ hs' = IF Rec[l].ev = "hk" THEN HkStep(Rec[l]) ELSE IF Rec[l].ev = "reset" THEN NoHs ELSE hs
 Spec == Init /\ [][Next]_vars
 
 Report == l = Len(Rec) + 1 =>
